@@ -15,6 +15,9 @@ pub struct Ctx {
     pub branches: BTreeMap<String, u64>,
     pub exhaustive: bool,
     pub nontrivial_extra: u64,
+    pub quiet: bool,
+    pub fail_lines: Vec<Value>,
+    pub shrinker: Option<fn(&mut Ctx, &crate::f_policy::DayCase)>,
     pub out: std::io::Stdout,
 }
 
@@ -37,6 +40,9 @@ impl Ctx {
             branches: BTreeMap::new(),
             exhaustive: false,
             nontrivial_extra: 0,
+            quiet: false,
+            fail_lines: vec![],
+            shrinker: None,
             out: std::io::stdout(),
         }
     }
@@ -57,12 +63,79 @@ impl Ctx {
     }
     pub fn fail(&mut self, input: Value, observed: String, required: String) {
         self.fails += 1;
-        if self.fails <= 40 {
-            let l = json!({"fail": {"input": input, "observed": observed, "required": required}});
-            writeln!(self.out.lock(), "{}", l).unwrap();
+        if self.fails <= 40 && !self.quiet {
+            self.fail_lines.push(json!({"fail": {"input": input, "observed": observed, "required": required}}));
         }
     }
+
+    /// does `case` still fail under the registered single-case falsifier?
+    fn still_fails(f: fn(&mut Ctx, &crate::f_policy::DayCase), case: &crate::f_policy::DayCase) -> Option<Value> {
+        let mut c = Ctx::new();
+        f(&mut c, case);
+        if c.fails > 0 {
+            c.fail_lines.into_iter().next()
+        } else {
+            None
+        }
+    }
+
+    /// coordinate descent towards plain values (policy None, no rounding, no offsets/intervals, no
+    /// weather, sea level, whole-degree site) while the failure persists
+    fn shrink_first(&mut self) {
+        let f = match self.shrinker {
+            Some(f) => f,
+            None => return,
+        };
+        let first = match self.fail_lines.first() {
+            Some(v) => v.clone(),
+            None => return,
+        };
+        let mut case = match crate::f_policy::DayCase::from_json(&first["fail"]["input"]) {
+            Some(c) => c,
+            None => return,
+        };
+        if first["fail"]["input"].get("finding_class").is_some() {
+            return;
+        }
+        let mut best: Option<Value> = None;
+        use islamic_prayer_times::*;
+        let steps: Vec<Box<dyn Fn(&crate::f_policy::DayCase) -> crate::f_policy::DayCase>> = vec![
+            Box::new(|c| c.with(|p| p.extreme_latitude_method = ExtremeLatitudeMethod::None)),
+            Box::new(|c| c.with(|p| p.round_seconds = RoundSeconds::None)),
+            Box::new(|c| c.with(|p| for q in crate::gen::PRAYERS { *p.minutes.get_mut(&q).unwrap() = 0.; })),
+            Box::new(|c| c.with(|p| { *p.intervals.get_mut(&Prayer::Fajr).unwrap() = 0.; *p.intervals.get_mut(&Prayer::Imsaak).unwrap() = 0.; })),
+            Box::new(|c| c.with(|p| *p.intervals.get_mut(&Prayer::Isha).unwrap() = 0.)),
+            Box::new(|c| c.with(|p| *p.angles.get_mut(&Prayer::Imsaak).unwrap() = 1.5)),
+            Box::new(|c| c.with(|p| { let a = p.angles[&Prayer::Fajr].round(); *p.angles.get_mut(&Prayer::Fajr).unwrap() = a; let b = p.angles[&Prayer::Isha].round(); *p.angles.get_mut(&Prayer::Isha).unwrap() = b; })),
+            Box::new(|c| c.with(|p| p.asr_shadow_ratio = AsrShadowRatio::Shafi)),
+            Box::new(|c| crate::f_policy::DayCase { w: None, ..c.clone() }),
+            Box::new(|c| { let mut d = c.clone(); d.l.coords.elevation = Elevation::try_from(0.).unwrap(); d }),
+            Box::new(|c| { let mut d = c.clone(); d.l.coords.latitude = Latitude::try_from(f64::from(c.l.coords.latitude).round()).unwrap(); d }),
+            Box::new(|c| { let mut d = c.clone(); d.l.coords.longitude = Longitude::try_from(f64::from(c.l.coords.longitude).round()).unwrap(); d }),
+            Box::new(|c| { let mut d = c.clone(); d.l.gmt = Gmt::try_from((f64::from(c.l.coords.longitude) / 15.).round().clamp(-12., 12.)).unwrap(); d }),
+        ];
+        for _ in 0..2 {
+            for st in &steps {
+                let cand = st(&case);
+                if let Some(v) = Ctx::still_fails(f, &cand) {
+                    case = cand;
+                    best = Some(v);
+                }
+            }
+        }
+        if let Some(mut v) = best {
+            v["fail"]["shrunk_from"] = first["fail"]["input"]["req"].clone();
+            self.fail_lines.insert(0, v);
+        }
+    }
+
     pub fn finish(&mut self, extra: Value) {
+        if !self.quiet {
+            self.shrink_first();
+            for l in &self.fail_lines {
+                writeln!(self.out.lock(), "{}", l).unwrap();
+            }
+        }
         let l = json!({"stats": {
             "evaluations": self.evals,
             "distinct_nontrivial": self.nontrivial.len() as u64 + self.nontrivial_extra,
